@@ -24,6 +24,10 @@ func fsDir(parts ...string) Val { return VL{c17p(parts...), VL{VT("d")}} }
 func fsFile(data string, parts ...string) Val {
 	return VL{c17p(parts...), VL{VT("f"), VB([]byte(data))}}
 }
+func fsDirM(mode uint64, parts ...string) Val { return VL{c17p(parts...), VL{VT("d"), VN(mode)}} }
+func fsFileM(mode uint64, data string, parts ...string) Val {
+	return VL{c17p(parts...), VL{VT("f"), VB([]byte(data)), VN(mode)}}
+}
 func fsLink(target string, parts ...string) Val {
 	return VL{c17p(parts...), VL{VT("l"), VB([]byte(target))}}
 }
@@ -43,6 +47,23 @@ func fileErrV(full []byte, form, chunks, missing int) Val {
 	return VL{VT("fe"), VB(pre), VN(form), VN(chunks), VN(missing), VB(full)}
 }
 func linkV(t string) Val { return VL{VT("l"), VB([]byte(t))} }
+
+// withMode adds the optional UnixFS mode (and an mtime) to a file / link / directory build value
+func withMode(v Val, mode uint64) Val {
+	l := append(VL{}, vl(v)...)
+	switch vt(vnth(v, 0)) {
+	case "f":
+		for len(l) < 4 {
+			l = append(l, VN(0))
+		}
+		return append(l[:4], VN(mode+1))
+	case "l":
+		return append(l[:2], VN(mode+1))
+	case "d":
+		return append(l[:3], VN(mode+1))
+	}
+	return v
+}
 func missV(salt []byte) Val { return VL{VT("m"), VB(salt)} }
 func badV(form int, salt []byte) Val { return VL{VT("b"), VN(form), VB(salt)} }
 
@@ -123,6 +144,15 @@ func (g *c17gen) leafFile() Val {
 }
 
 func (g *c17gen) tree(depth int) Val {
+	v := g.tree0(depth)
+	if g.r.Chance(25) {
+		g.c.Count("node:with-unixfs-mode")
+		return withMode(v, pick(g.r, []uint64{0o777, 0o700, 0, 0o644, 0o755, 0o4755, 0o1777, 0o400}))
+	}
+	return v
+}
+
+func (g *c17gen) tree0(depth int) Val {
 	r := g.r
 	switch {
 	case r.Chance(2 * g.p):
@@ -189,12 +219,12 @@ func (g *c17gen) dir(depth int) Val {
 func c17Skeleton() VL {
 	return VL{
 		fsDir(), fsDir("q"), fsDir("q", "p"), fsDir("q", "p", "w"),
-		fsDir("q", "p", "outside"), fsFile("SENTINEL", "q", "p", "outside", "target"),
-		fsDir("q", "p", "outside", "dir"), fsFile("KEEP", "q", "p", "outside", "dir", "keep"),
+		fsDir("q", "p", "outside"), fsFileM(0o600, "SENTINEL", "q", "p", "outside", "target"),
+		fsDirM(0o700, "q", "p", "outside", "dir"), fsFileM(0o640, "KEEP", "q", "p", "outside", "dir", "keep"),
 		fsFile("sibling", "q", "p", "w", "sib"), fsFile("plain", "q", "p", "w", "afile"),
 		fsLink("out", "q", "p", "w", "lnk"), fsLink(c17Out, "q", "p", "w", "alnk"),
 		// a sibling whose path has the output directory's path as a string prefix
-		fsDir("q", "p", "w", "out2"), fsFile("S2", "q", "p", "w", "out2", "t"),
+		fsDirM(0o750, "q", "p", "w", "out2"), fsFile("S2", "q", "p", "w", "out2", "t"),
 	}
 }
 
@@ -350,7 +380,11 @@ func unshard(v Val) Val {
 	if form == 1 || form == 2 || form == 4 {
 		form = 0
 	}
-	return VL{VT("d"), ents, VN(form)}
+	out := VL{VT("d"), ents, VN(form)}
+	if m, ok := vnth(v, 3).(VN); ok {
+		out = append(out, m)
+	}
+	return out
 }
 
 func itoa(i int) string {
@@ -413,6 +447,16 @@ func init() {
 			{"symlink-dotdot-then-dir", with(), VL{rootN(dirV(0, de("s", linkV("..")), de("s", dirV(0, de("sib", f1("PWNED"))))))}, 0},
 			{"symlink-to-prefix-sibling-then-file", with(), VL{rootN(dirV(0, de("x", linkV(c17Out+"2/t")), de("x", f1("PWNED"))))}, 0},
 			{"symlink-to-prefix-sibling-dir", with(), VL{rootN(dirV(0, de("d", linkV(c17Out+"2")), de("d", dirV(0, de("t", f1("PWNED"))))))}, 0},
+			{"mode-dir-over-symlink-to-outside-dir", with(), VL{rootN(dirV(0, de("d", linkV(c17Outside+"/dir")), de("d", withMode(dirV(0), 0o777))))}, 0},
+			{"mode-dir-over-symlink-children-missing", with(), VL{rootN(dirV(0, de("d", linkV(c17Outside+"/dir")), de("d", withMode(dirV(0, de("m1", missV([]byte("m1"))), de("m2", missV([]byte("m2")))), 0o777)), de("after", f1("A"))))}, 0},
+			{"mode-sharded-dir-over-symlink", with(), VL{rootN(dirV(0, de("d", linkV(c17Out+"2")), de("d", withMode(dirV(1), 0o707))))}, 0},
+			{"mode-dir-over-prepopulated-symlink", with(fsLink(c17Outside+"/dir", outp("ld")...)), VL{rootN(dirV(0, de("ld", withMode(dirV(0), 0o777))))}, 1},
+			{"mode-dir-over-symlink-from-earlier-root", with(), VL{rootN(dirV(0, de("d", linkV(c17Outside+"/dir")))), rootN(dirV(0, de("d", withMode(dirV(0), 0o755))))}, 0},
+			{"mode-dir-over-symlink-dotdot", with(), VL{rootN(dirV(0, de("s", linkV("..")), de("s", withMode(dirV(0), 0o700))))}, 0},
+			{"mode-on-benign-entries", with(fsFileM(0o600, "old", outp("keep")...)), VL{rootN(withMode(dirV(0, de("f", withMode(f1("F"), 0o755)), de("keep", withMode(f1("NEW"), 0o777)), de("d", withMode(dirV(0, de("g", withMode(fileV([]byte("0123456789abcdefghij"), 3, 2), 0o400))), 0o500)), de("l", withMode(linkV("f"), 0o700))), 0o711))}, 0},
+			{"dotdot-symlink-entry-then-second-root", with(), VL{rootN(dirV(0, de("..", linkV(c17Outside+"/dir")))), rootN(dirV(0, de("pwn", f1("PWNED"))))}, 0},
+			{"dot-symlink-entry-then-second-root", with(), VL{rootN(dirV(0, de(".", linkV(c17Outside+"/dir")))), rootN(dirV(0, de("pwn", f1("PWNED"))))}, 0},
+			{"empty-name-symlink-entry-then-second-root", with(), VL{rootN(dirV(0, dent{nil, linkV("../../outside/dir"), false})), rootN(dirV(0, de("keep", f1("PWNED"))))}, 0},
 			{"symlink-chain-then-file", with(), VL{rootN(dirV(0, de("y", linkV(tgt)), de("x", linkV("y")), de("x", f1("PWNED"))))}, 0},
 			{"missing-blocks", with(), VL{rootN(dirV(0, de("a", missV([]byte("1"))), de("b", f1("B")), de("c", fileErrV([]byte("0123456789"), 3, 2, 1))))}, 0},
 			{"missing-root", with(), VL{rootN(dirV(0, de("a", f1("A")))), rootN(missV([]byte("2")))}, 0},
